@@ -760,6 +760,8 @@ def eq_hash(env, res, model, pool, stats, mism, hv):
     res.extra["hash_separating_pairs"] = {"total": n_w, "real_hash_equal": n_w_equal}
   # ---- the law's oracle on the real objects ----
   reported_other = 0
+  reported_order = 0
+  viol.sort(key=lambda ij: len(toks[ij[0]]) + len(toks[ij[1]]))      # smallest witnesses first
   for i, j in viol:
     a, b = pool[i], pool[j]
     order_only = (lines is not None and (i, j) in explained and has_permuted_union(env, a, b))
@@ -767,6 +769,9 @@ def eq_hash(env, res, model, pool, stats, mism, hv):
       order_only = has_permuted_union(env, a, b)
     rp = {"kind": "eqhash", "a": c12_gen.to_expr(a), "b": c12_gen.to_expr(b)}
     if order_only:
+      reported_order += 1
+      if reported_order > 3:
+        continue
       res.violation(FINGERPRINT_UNION_HASH,
                     "%s == %s but their hashes differ (len({a, b}) == %d)" % (str(a)[:80], str(b)[:80], len({a, b})), rp)
     elif reported_other < 3:
@@ -814,13 +819,15 @@ def cross_process(env, res, stats):
       "b = pickle_utils.Serialize(ast, src_path='m.pyi', metadata=['k'])\n"
       "print(hashlib.sha256(b).hexdigest(), len(b))\n") % os.path.join(common.VERIF, "harness")
   digests = []
-  for seed in ("0", "1", "31337"):
-    pr = subprocess.run([common.PY, "-c", code], input=text, capture_output=True, text=True,
-                        env=common.impl_env(hashseed=seed))
+  procs = [subprocess.Popen([common.PY, "-c", code], stdin=subprocess.PIPE, stdout=subprocess.PIPE,
+                            stderr=subprocess.PIPE, text=True, env=common.impl_env(hashseed=seed))
+           for seed in ("0", "1", "31337")]
+  for pr in procs:
+    so, se = pr.communicate(text)
     if pr.returncode != 0:
-      res.obligation("oracle:cross-process-run", False, pr.stderr[-800:])
+      res.obligation("oracle:cross-process-run", False, se[-800:])
       return
-    digests.append(pr.stdout.strip())
+    digests.append(so.strip())
   stats["cross_process_digests"] = len(set(digests))
   if len(set(digests)) != 1:
     res.violation("bytes-depend-on-hash-seed", "Serialize() of one stub gives different bytes under PYTHONHASHSEED 0/1/31337: %s" % digests,
